@@ -13,7 +13,7 @@ import subprocess
 import sys
 
 VERIF = os.path.dirname(os.path.dirname(os.path.abspath(__file__)))
-EXTRA = {"C06_2": ["C05", "C09"], "C07_2": ["C14"], "C14_2": ["C06"], "C07_5": ["C14"], "C13_6": ["C09"], "C06_8": ["C05", "C09"]}
+EXTRA = {"C06_2": ["C05", "C09"], "C07_2": ["C14"], "C14_2": ["C06"], "C07_5": ["C14"], "C13_6": ["C09"], "C06_8": ["C05", "C09"], "C02_10": ["C17"]}
 
 
 def main():
